@@ -105,6 +105,8 @@ struct ScanSpec {
     regexes: Vec<String>,
     /// nested scan inside arm i: (group index it scans, spec)
     nested: Vec<Option<(usize, Box<ScanSpec>)>>,
+    /// arms with an empty block: they only consume the text they match
+    silent: Vec<bool>,
 }
 
 fn simulate(spec: &ScanSpec, res: &[Vec<Regex>], level: u32, subject: &str, absolute: bool, depth_index: &mut usize, steps: &mut Vec<Step>) -> Result<(), Expect> {
@@ -145,7 +147,9 @@ fn simulate(spec: &ScanSpec, res: &[Vec<Regex>], level: u32, subject: &str, abso
             return Err(Expect::MayFail(steps.clone()));
         }
         let groups: Vec<String> = caps.iter().map(|g| g.map(|m| m.as_str().to_string()).unwrap_or_default()).collect();
-        steps.push(Step { level, arm: ai as u32, groups: groups.clone() });
+        if !spec.silent[ai] {
+            steps.push(Step { level, arm: ai as u32, groups: groups.clone() });
+        }
         if let Some((gi, inner)) = &spec.nested[ai] {
             let mut di = nested_index(spec, my, ai);
             let sub = groups.get(*gi).cloned().unwrap_or_default();
@@ -197,6 +201,10 @@ fn emit(spec: &ScanSpec, subject_expr: &str, level: u32, indent: usize, out: &mu
         let groups = re.captures_len();
         *counter += 1;
         let n = format!("n{}", counter);
+        if spec.silent[ai] {
+            out.push_str(&format!("{}  {} {{\n{}  }}\n", pad, escape_string(r), pad));
+            continue;
+        }
         out.push_str(&format!("{}  {} {{\n", pad, escape_string(r)));
         out.push_str(&format!("{}    node {}\n", pad, n));
         let mut attrs = vec![format!("level = {}", level), format!("arm = {}", ai)];
@@ -216,6 +224,7 @@ fn gen_spec(rng: &mut Rng, depth: usize) -> ScanSpec {
     let n = rng.range(1, 4);
     let mut regexes = Vec::new();
     let mut nested = Vec::new();
+    let mut silent = Vec::new();
     for _ in 0..n {
         let mut r = gen_regex(rng, 0);
         let mut tries = 0;
@@ -232,10 +241,11 @@ fn gen_spec(rng: &mut Rng, depth: usize) -> ScanSpec {
         } else {
             None
         };
+        silent.push(inner.is_none() && n > 1 && rng.chance(1, 5));
         regexes.push(r);
         nested.push(inner);
     }
-    ScanSpec { regexes, nested }
+    ScanSpec { regexes, nested, silent }
 }
 
 fn observe_steps(g: &OGraph) -> Result<Vec<Step>, String> {
